@@ -1014,6 +1014,7 @@ func penvCoq(w *Rpc) string {
 type cwSrvObs struct {
 	HEvents []string `json:"hev"`
 	HCtx    []string `json:"hctx"`  // "(c, done)" per started, not yet returned handler
+	HBusy   []string `json:"hbusy"` // calls whose handler is parked INSIDE an operation (RecvMsg, SendMsg, ...) at this point
 	SReg    int      `json:"sreg"`  // server stream registry size (-1: lock held, -2: no server)
 	WC      int      `json:"wc"`    // envelopes written so far by the client
 	WS      int      `json:"ws"`    // ... by the server
@@ -1033,7 +1034,7 @@ func (r *cwRig) snapshot() (stepObs, cwSrvObs) {
 	for k := range r.pend {
 		pend = append(pend, k)
 	}
-	var hctx []string
+	var hctx, hbusy []string
 	var hk []int
 	for c := range r.handlers {
 		hk = append(hk, c)
@@ -1045,6 +1046,9 @@ func (r *cwRig) snapshot() (stepObs, cwSrvObs) {
 			continue
 		}
 		hctx = append(hctx, fmt.Sprintf("(%s, %s)", coqZ(int64(h.c)), coqBool(h.ctx.Err() != nil)))
+		if h.busy {
+			hbusy = append(hbusy, coqZ(int64(h.c)))
+		}
 	}
 	serveRet := r.serveRet
 	r.mu.Unlock()
@@ -1055,7 +1059,7 @@ func (r *cwRig) snapshot() (stepObs, cwSrvObs) {
 	if r.cc != nil {
 		co.Reg = r.cc.VerifNumHandlers()
 	}
-	so := cwSrvObs{HEvents: hevs, HCtx: hctx, SReg: -2, SrvG: srvg, Serve: serveRet}
+	so := cwSrvObs{HEvents: hevs, HCtx: hctx, HBusy: hbusy, SReg: -2, SrvG: srvg, Serve: serveRet}
 	if r.srv != nil {
 		cs := goat.VerifServerStreamCounts()
 		if len(cs) > 0 {
@@ -1078,8 +1082,8 @@ func (r *cwRig) snapshot() (stepObs, cwSrvObs) {
 }
 
 func sobsCoq(o cwSrvObs) string {
-	return fmt.Sprintf("(mkSO %s %s %s %d %d %d %d %d %s)", coqList(o.HEvents), coqList(o.HCtx), coqZ(int64(o.SReg)),
-		o.WC, o.WS, o.DC, o.DS, o.SrvG, coqBool(o.Serve))
+	return fmt.Sprintf("(mkSO %s %s %s %d %d %d %d %d %s %s)", coqList(o.HEvents), coqList(o.HCtx), coqZ(int64(o.SReg)),
+		o.WC, o.WS, o.DC, o.DS, o.SrvG, coqBool(o.Serve), coqList(o.HBusy))
 }
 
 func stepTag(a Step) string {
@@ -1263,7 +1267,7 @@ func runCwScenario(t *testing.T, idx int, kind string, sc cwScenario, em *Emitte
 		for i, a := range sc.Steps {
 			if a.Op == "drain" {
 				// deliver everything in flight, one envelope per step, until both wires are empty
-				for n := 0; n < 60; n++ {
+				for n := 0; n < 60+4*len(sc.Steps); n++ {
 					nc, ns := link.InFlight()
 					if nc == 0 && ns == 0 {
 						break
@@ -1472,14 +1476,24 @@ func cwFindingTags(recs []cwStepRec) []string {
 	if t := cwDeadlineTag(recs); t != "" {
 		return []string{t}
 	}
+	// ... which takes stream_cap+1 = 2 client envelopes (messages / half-close) of one stream: without them a read loop
+	// parked under the registry lock is NOT this finding (e.g. a loop waiting for a free slot of some per-connection cap)
 	cancelled := false
+	data := map[int]int{}
+	full := false
 	for _, r := range recs {
+		if r.Step.Op == "send" || r.Step.Op == "closesend" || r.Step.Op == "cancelsend" || r.Step.Op == "cancelsendf" {
+			data[r.Step.C]++
+			if data[r.Step.C] >= 2 {
+				full = true
+			}
+		}
 		for _, a := range r.Acts {
 			if strings.HasPrefix(a, "ACancel") || strings.HasPrefix(a, "AExpire") {
 				cancelled = true
 			}
 		}
-		if cancelled && r.S.SReg == -1 {
+		if cancelled && full && r.S.SReg == -1 {
 			return []string{"sig:reset-behind-backpressure"}
 		}
 	}
